@@ -27,6 +27,7 @@ type Case struct {
 	Format      string `json:"format"`
 	Muts        []Mut  `json:"muts"`
 	DataPresent int    `json:"data_present"` // 0: all data files missing, 1: all present, 2: first missing
+	Conformant  bool   `json:"conformant,omitempty"` // the mutations keep the set conformant: Verify must succeed and Repair must restore the files
 }
 
 var p2names = []string{"a.dat", "sub/b.bin"}
@@ -264,6 +265,7 @@ func BuildPAR1(muts []Mut) (map[string][]byte, []decl) {
 	nvol := 3
 	vols := make([]par1ref.Volume, nvol+1)
 	dataLen := -1
+	volFirst := 1
 	u := func(v uint64) *uint64 { return &v }
 	extra := 0
 	for _, m := range muts {
@@ -282,6 +284,8 @@ func BuildPAR1(muts []Mut) (map[string][]byte, []decl) {
 			}
 		case f == "addentries":
 			extra = int(m.Val)
+		case f == "vol.first":
+			volFirst = int(m.Val)
 		case f == "vol.datalen":
 			dataLen = int(m.Val)
 		}
@@ -294,7 +298,8 @@ func BuildPAR1(muts []Mut) (map[string][]byte, []decl) {
 	for v := 0; v <= nvol; v++ {
 		vols[v] = par1ref.Volume{SetHash: sh, VolNumber: uint64(v), Entries: es}
 		if v > 0 {
-			d := par1ref.Parity(datas, v)
+			vols[v].VolNumber = uint64(volFirst + v - 1)
+			d := par1ref.Parity(datas, volFirst+v-1)
 			if dataLen >= 0 {
 				nd := make([]byte, dataLen)
 				copy(nd, d)
@@ -331,7 +336,7 @@ func BuildPAR1(muts []Mut) (map[string][]byte, []decl) {
 	for v := 0; v <= nvol; v++ {
 		n := "set.par"
 		if v > 0 {
-			n = fmt.Sprintf("set.p%02d", v)
+			n = fmt.Sprintf("set.p%02d", volFirst+v-1)
 		}
 		out[n] = vols[v].Encode()
 	}
